@@ -36,6 +36,7 @@ def run_entry(text, entry, judge=None, opts=None, extra_modules=(), guide=None):
     ex.limit_is_hang = opts.get('limit_is_hang', False)
     ex.preempt_bound = opts.get('preempt_bound', 0)
     ex.preempt_range = opts.get('preempt_range')
+    ex.preempt_in_cs = opts.get('preempt_in_cs', False)
     ex.race_detect = opts.get('race_detect', False)
     if opts.get('concolic_tape') is not None:
         ex.concolic_tape = opts['concolic_tape']
